@@ -183,3 +183,60 @@ class FaultyDevice(object):
 
     def send_rsp_recv_cmd(self, target, data, timeout):
         return None if nondet_bool() else self._outcome()
+
+
+EVENTS = []      # ghost event log of callbacks and driver calls (C18); reset per path by the contracts
+
+
+class SenseDevice(object):
+    """driver as sense()/listen() may meet it (C18): each technology entry point returns a target, returns
+    None, or raises what the Device interface documents (UnsupportedTargetError, CommunicationError, ValueError
+    for invalid target attributes).  Requires that the frontend has forgotten any previous target."""
+    def __init__(self, clf):
+        self.clf = clf
+
+    def _sense(self, name, target):
+        require(self.clf.target is None, 'no target is held while the driver discovers')
+        EVENTS.append(name)
+        k = nondet_int(0, 5)
+        if k == 0:
+            return None
+        if k == 1:
+            raise nfc.clf.UnsupportedTargetError("unsupported")
+        if k == 2:
+            raise nfc.clf.TransmissionError("crc")
+        if k == 3:
+            raise nfc.clf.TimeoutError("timeout")
+        if k == 4:
+            raise ValueError("invalid target attribute")
+        return nfc.clf.RemoteTarget(target.brty, sens_res=bytearray(b'\x44\x00'), sel_res=bytearray(b'\x00'),
+                                    found_by=name)
+
+    def mute(self):
+        EVENTS.append('mute')
+
+    def sense_tta(self, target):
+        return self._sense('sense_tta', target)
+
+    def sense_ttb(self, target):
+        return self._sense('sense_ttb', target)
+
+    def sense_ttf(self, target):
+        return self._sense('sense_ttf', target)
+
+    def sense_dep(self, target):
+        return self._sense('sense_dep', target)
+
+
+class DirDevice(object):
+    """records which exchange direction the frontend used (C18)"""
+    def __init__(self):
+        self.used = None
+
+    def send_cmd_recv_rsp(self, target, data, timeout):
+        self.used = "cmd"
+        return nondet_bytearray(0, None)
+
+    def send_rsp_recv_cmd(self, target, data, timeout):
+        self.used = "rsp"
+        return nondet_bytearray(0, None)
